@@ -161,10 +161,20 @@ func runC02(r *Run) {
 									return false
 								}
 								cal := staticCallee(&c.Call)
-								if cal == nil || cal.Name() != "compareCurrentPodWithNewPod" || len(c.Call.Args) != 3 {
+								if cal == nil || !r.Prog.podComparators()[cal] {
 									return false
 								}
-								return c.Call.Args[2] == el && podPairedWith(c.Call.Args[1], el)
+								// the comparison is about this node and the pod paired with it
+								hasNode, hasPod := false, false
+								for _, a := range c.Call.Args {
+									if a == el {
+										hasNode = true
+									}
+									if isPodPtr(a.Type()) && podPairedWith(a, el) {
+										hasPod = true
+									}
+								}
+								return hasNode && hasPod
 							})
 						}
 						r.Check(rule, fmt.Sprintf("append to %s candidates", what), pos, shortFunc(fn), need, ok, "must-facts: "+truncate(ff.At(ap.Block()).String(), 300))
@@ -391,7 +401,7 @@ func c02OutdatedAlwaysCandidate(r *Run, reach map[*ssa.Function]bool, feeders ma
 					continue
 				}
 				cal := staticCallee(&c.Call)
-				if cal == nil || cal.Name() != "compareCurrentPodWithNewPod" {
+				if cal == nil || !r.Prog.podComparators()[cal] {
 					continue
 				}
 				headers := enclosingLoopHeaders(fn, b)
